@@ -298,6 +298,21 @@ func TestVerifC11E2E(t *testing.T) {
 		bem[1].avg = int64(r.Range(0, 40)) * 250 // request
 		bem[2].avg = int64(r.Range(0, 24)) * 250 // real limit
 		bem[0].avg = bem[2].avg * int64(r.Range(50, 100)) / 100
+		if r.Chance(2, 5) {
+			// steer towards a FIRING satisfaction target: limit well below the request, usage close to the limit, enough points
+			bem[1].avg = int64(r.Range(8, 40)) * 250
+			bem[2].avg = bem[1].avg * int64(r.Range(5, 45)) / 100
+			if bem[2].avg < 250 {
+				bem[2].avg = 250
+			}
+			bem[0].avg = bem[2].avg * int64(r.Range(85, 100)) / 100
+			for i := range bem {
+				bem[i].err = false
+				if bem[i].cnt < 10 {
+					bem[i].cnt = int64(r.Range(10, 30))
+				}
+			}
+		}
 		for i := range bem {
 			bem[i].cur = bem[i].avg
 			if r.Chance(1, 3) {
@@ -468,6 +483,8 @@ func TestVerifC11E2E(t *testing.T) {
 			h.Op("rawpod %d %d %d %d %d %d %d %d %d %s %s %d %d %d %d %d %d %d %d %s", p.id, p.name, p.qos, kube, p.phase,
 				vB(p.hasSpec), p.spec, p.clsLabel, el, numTok(p.epKind, p.epNum), numTok(p.lpKind, p.lpNum), p.polTop,
 				0, 0 /* hasMetric / used: defined by the pod's `metric` line below */, p.reqNative, p.reqMid, p.reqBatch, p.batchCPU, len(p.polElems), vIntsI(p.polElems))
+			h.Op("%s", c11CtrsOp(p))
+			h.Tag(fmt.Sprintf("containers:%d", len(p.ctrs)))
 		}
 		for _, p := range pods {
 			h.Op("%s", c11SeriesOp(p, qWindow))
@@ -633,6 +650,9 @@ func TestVerifC11E2E(t *testing.T) {
 				// priority paths ("4. filter no metrics"): a pod the agent has no usage sample of inside the query
 				// window is no victim.  (The BE path keeps such a pod as a candidate with usage 0: unchanged tree.)
 				h.Fail("C11:victim-without-metric", "e2e: pod %d evicted by %s although the metric cache holds no usage sample of it in the last %d ms (%s)", p.id, c11eFeatures[c.feat], qWindow, p.mstate)
+			}
+			if c.feat == 0 && !p.hasMetric {
+				h.Tag("be-victim-without-sample") // allowed: the BE lists keep an unmeasured pod with usage 0
 			}
 			if okPods[p.id] {
 				h.Fail("C11:double-evict", "e2e: pod %d evicted again", p.id)
